@@ -142,6 +142,25 @@ def r6_documented_predicates(ctx):
             ok = isinstance(v, ast.Call) and call_name(v) == "hasattr" and [dotted(x) for x in v.args] == [cls_p, par]
             ctx.ob(f"{f.key}:has-the-method", f.loc(), "HasMethod[name] matches classes that have an attribute of that name", ok, "HasMethod[name] no longer tests hasattr(cls, name)")
     ctx.require(found >= 3, "expected Exactly, StrictSubclass and HasMethod")
+    # Deferred["pkg.mod.Cls"]: a class is examined only if the top-level package of its module is the reference's
+    defs = [c for c in repo.all_classes() if c.name == "Deferred" and "__class_getitem__" in c.methods]
+    for c in defs:
+        m = c.methods["__class_getitem__"]
+        ctx.touch(m)
+        checks = [f for f in m.children.values()]
+        ok = False
+        for chk in checks:
+            firsts = set()
+            for s in ast.walk(chk.node):
+                if isinstance(s, ast.Assign) and isinstance(s.targets[0], ast.Name):
+                    if any(isinstance(x, ast.Subscript) and isinstance(x.slice, ast.Constant) and x.slice.value == 0 and isinstance(x.value, ast.Call) and isinstance(x.value.func, ast.Attribute) and x.value.func.attr == "split" for x in ast.walk(s.value)):
+                        firsts.add(s.targets[0].id)
+            for cmp_ in ast.walk(chk.node):
+                if isinstance(cmp_, ast.Compare) and len(cmp_.ops) == 1 and isinstance(cmp_.ops[0], ast.Eq):
+                    sides = {dotted(cmp_.left), dotted(cmp_.comparators[0])}
+                    if sides & firsts and len(sides) == 2:
+                        ok = True
+        ctx.ob(f"{m.key}:top-level-package", m.loc(), "a deferred class reference is compared with the first dotted component of a class's module (classes defined in submodules of the package are examined)", ok, "the deferred reference is compared with the class's full module path: a class defined in a submodule of the referenced package never matches")
 
 
 def r7(ctx):
